@@ -1439,6 +1439,47 @@ fn c08_snapshot_refresh_bank_pairing() {
 // see DESIGN section 12)
 
 // =============================================================================================
+// C11 / C07 - bit 6 of the ULA port is the tape's EAR level, whatever the program wrote to the port
+// =============================================================================================
+fn ear_input_case(m: ZXMachine) {
+    let mut c = mk_controller(m, FbCtx { wx: 0, wy: 0 }, false, false);
+    // literal frame time: port timing is C04's subject
+    c.frame_clocks = 1000;
+    let level: bool = kani::any();
+    c.tape = crate::zx::tape::verif_hooks_tap::stopped_tape_with_level(level).into();
+    // what the program did before: any value written to the ULA port (border, MIC bit 3, speaker bit 4)
+    let (wh, data): (u8, u8) = (kani::any(), kani::any());
+    c.write_io(u16::from_le_bytes([0xFE, wh]), data);
+    let rh: u8 = kani::any();
+    let got = c.read_io(u16::from_le_bytes([0xFE, rh]));
+    kani::assert((got & 0x40 != 0) == level, "c11.ear.bit6_is_the_tape_level_whatever_was_written_to_the_port");
+    kani::assert(got & 0xA0 == 0xA0, "c07.read.bits_5_and_7_set");
+    kani::cover!(level && data & 0x18 == 0, "tape high, speaker and MIC outputs low");
+    kani::cover!(!level && data & 0x10 != 0, "tape low, speaker output high");
+}
+
+// @harness
+// @prop C11 C07
+// @tier quick
+// @timeout 900
+// @fn ZXController::write_io -> write_fe; ZXController::read_io (ULA arm); ZXTape::current_bit
+// @sym machine (literal per case), tape EAR level, the value last written to the ULA port (all 256: border, MIC, speaker bits) and both port high bytes
+// @assert the EAR input the CPU reads on bit 6 of an even port is the tape's level and nothing else - in particular not the program's own speaker/MIC output bits - so the waveform the tape presents is the waveform the loader sees, whatever the CPU executed before ("tape EAR on bit 6"; "whatever instructions the CPU is executing")
+// @bound one write followed by one read; frame time literal
+// @stub ZXScreen::process_clocks -> no-op
+// @replay solver-only
+#[kani::proof]
+#[kani::unwind(10)]
+#[kani::stub(crate::zx::video::screen::ZXScreen::process_clocks, noop_screen_clocks)]
+fn c11_ear_input_is_the_tape_level() {
+    if kani::any() {
+        ear_input_case(ZXMachine::Sinclair48K);
+    } else {
+        ear_input_case(ZXMachine::Sinclair128K);
+    }
+}
+
+// =============================================================================================
 // C11 - every T-state the machine spends reaches the tape
 // =============================================================================================
 
